@@ -73,6 +73,44 @@ Fixpoint conforms (n : nat) (o : wopts) (e : env) (s : schema) (v : pyval) {stru
 
 Definition conformsP (o : wopts) (e : env) (s : schema) (v : pyval) : Prop := exists n, conforms n o e s v.
 
+(** ** the documented normalisation: what a reader (no named-type reporting) returns for a written datum.
+    "omitted fields replaced by their defaults, union hints stripped, sequences returned as lists, numbers written under
+    float/double returned as floats, 'float' values rounded to IEEE single precision" -- clause by clause, independent of
+    the writer's branch search: under a union SOME admissible branch is named, not the one the search would pick. *)
+(* the value a record field is written from: the supplied one, else the default, else None *)
+Definition field_source (kv : list (pyval * pyval)) (fd : field) : pyval :=
+  match dict_get kv (fname fd) with
+  | Some x => x
+  | None => match fdefault fd with Some d => d | None => PNone end
+  end.
+
+Fixpoint normalises (n : nat) (o : wopts) (e : env) (s : schema) (v out : pyval) {struct n} : Prop :=
+  match n with
+  | O => False
+  | S n =>
+    match s with
+    | SNull | SBool | SInt | SLong | SString | SEnum _ _ _ _ | SFixed _ _ _ => out = v
+    | SBytes => exists b, (v = PBytes b \/ v = PByteArray b) /\ out = PBytes b                 (* bytearray -> bytes *)
+    | SDouble => exists b, to_double v = WOk b /\ out = PFloat b                              (* int -> float *)
+    | SFloat => exists b x, to_double v = WOk b /\ d2s b = Ok x /\ out = PFloat (s2d x)         (* rounded to single *)
+    | SArray it => exists l outs, seq_items v l /\ out = PList outs /\ Forall2 (normalises n o e it) l outs
+    | SMap vs => exists kv outs, v = PDict kv /\ out = PDict outs /\                            (* same keys, same order *)
+                   Forall2 (fun p q => exists k, fst p = PStr k /\ fst q = PStr k /\ normalises n o e vs (snd p) (snd q)) kv outs
+    | SRecord _ _ fs => exists kv outs, v = PDict kv /\ out = PDict outs /\                     (* exactly the schema's fields, in order *)
+                   Forall2 (fun fd q => fst q = PStr (fname fd) /\ normalises n o e (ftype fd) (field_source kv fd) (snd q)) fs outs
+    | SUnion bs =>
+        let plain := exists b, In b bs /\ hint_pass e v b = true /\ conformsP o e b v /\ normalises n o e b v out in
+        match v with
+        | PTuple l =>
+            if disable_tuple o then plain
+            else exists name x b, l = [PStr name; x] /\ In b bs /\ branch_name b = name /\ normalises n o e b x out
+        | _ => plain
+        end
+    | SRef nm => exists s', lookup e nm = Some s' /\ normalises n o e s' v out
+    | SAnnot _ s' => normalises n o e s' v out
+    end
+  end.
+
 (** ** raise_errors=True *)
 Inductive vres := VTrue | VRaised | VErr | VFuel.   (* returns True | raises ValidationError | another exception | fuel *)
 
@@ -187,13 +225,17 @@ Fixpoint wf_py (v : pyval) : bool :=
   | PDict kv => (len kv <? 2 ^ 63) && nodup_keys kv && forallb (fun p => wf_py (fst p) && wf_py (snd p)) kv
   end.
 
-(* defaults are well-formed data; fewer than 2^63 union branches / enum symbols *)
+Fixpoint nodup_str (l : list str) : bool :=
+  match l with [] => true | x :: r => negb (existsb (bytes_eqb x) r) && nodup_str r end.
+
+(* defaults are well-formed data; fewer than 2^63 union branches / enum symbols; field names of a record distinct *)
 Fixpoint wf_schema (s : schema) : bool :=
   match s with
   | SEnum _ _ syms _ => len syms <? 2 ^ 63
   | SArray s' | SMap s' | SAnnot _ s' => wf_schema s'
   | SUnion bs => (len bs <? 2 ^ 63) && forallb wf_schema bs
   | SRecord _ _ fs =>
+      nodup_str (field_names fs) &&
       forallb (fun fd => wf_schema (ftype fd) && match fdefault fd with Some d => wf_py d | None => true end) fs
   | _ => true
   end.
